@@ -13,6 +13,11 @@
     middle; pulled by raw /_svs/* exchanges and by the blocking, async and WebSocket pullers.
     Trace_ValueStream judges each pull; the exact chunk sizes of the as-built layer are compared too
     but a difference there alone is reported as spec_drift, not as a violation.
+ 3. spec -> impl: MC_ValueStreamGen prints the one terminal reply sequence ValueStream has for each of
+    the 396 parameter choices (N 0..7 x chunk 1..3 x depth 0..2 x failure point); the same raw exchange
+    (next until end marker or error, then one more next) is performed on real writer producers with
+    those chunk sizes and depths, twice with different write patterns, and the reply sequence
+    (kind, length, end marker) must equal the model's.
 """
 import json
 import vlib
@@ -38,7 +43,33 @@ def run(ctx):
                       f"{kind}: producer {e.get('producer')} n={e.get('n')} chunk={e.get('chunk')} depth={e.get('depth')} comp={e.get('comp')} fail={e.get('fail')} via {who}: {json.dumps(e)[:500]}", e)
     for line, kind in res.get("drift", []):
         ctx.drift.append({"line": line, "kind": kind, "event": evs[line - 1]})
-    ctx.coverage["evaluations"] += len(evs)
+    # ---- spec -> impl: the model's terminal reply sequences replayed on real producers
+    vec = ctx.tlc_generate("MC_ValueStreamGen", "MC_ValueStreamGen.cfg", ["ValueStream.tla"], timeout=1200)
+    vt, vs_ = ctx.work / "c09vec.ndjson", ctx.work / "c09vec.json"
+    ctx.vh("vs-c09-vec", "--vectors", vec, "--out", vt, "--summary", vs_, "--reps", 2 if q else 5, timeout=1200)
+    vst = json.loads(vs_.read_text())
+    if vst["vectors"] < 300:
+        raise vlib.ToolError(f"generator produced only {vst['vectors']} vectors")
+
+    def proj(rs, fail):
+        kinds = []
+        for k, _n, last in rs:
+            t = "err" if k == "err" else ("last" if last else "chunk")
+            if not (t == "chunk" and kinds and kinds[-1] == "chunk"):
+                kinds.append(t)
+        total = sum(n for k, n, _ in rs if k == "chunk")
+        return (kinds, total if fail < 0 else None)
+    for e in vlib.read_ndjson(vt):
+        if e["same"]:
+            continue
+        if not e["open"] or not e["bytes_ok"] or proj(e["got"], e["fail"]) != proj(e["expected"], e["fail"]):
+            ctx.violation(f"c09vec:{'fail' if e['fail'] >= 0 else 'ok'}:{proj(e['got'], e['fail'])[0]}",
+                          f"reply sequence differs from ValueStream's for n={e['n']} chunk={e['chunk']} depth={e['depth']} fail={e['fail']} (writes {e['w']}): expected {e['expected']}, got {e['got']}", e)
+        else:
+            ctx.drift.append({"kind": "chunk_sizes_vs_model", "event": e})
+    ctx.coverage["spec_vectors_replayed"] = vst["replayed_same"] + vst["replayed_different"]
+    ctx.coverage["spec_vectors_equal"] = vst["replayed_same"]
+    ctx.coverage["evaluations"] += len(evs) + vst["replayed_same"] + vst["replayed_different"]
     ctx.coverage["traces_validated_against_impl"] += st["pulls"] - len(res["mismatches"])
     ctx.coverage["distinct_nontrivial"] = len({(e.get("producer"), e.get("n"), e.get("chunk"), e.get("depth"), e.get("comp"), e.get("fail"), e.get("via", "raw"), e.get("psleep", 0), e.get("csleep", 0), e.get("cancelled", False)) for e in evs})
     ctx.coverage["rule"] = "distinct (producer kind, payload length, chunk, depth, compression, failure point, puller, speed regime, release) tuples"
